@@ -801,27 +801,27 @@ impl Compiler {
                 });
             }
 
-            // Handle short-circuit operators specially
+            // Handle short-circuit operators specially: when the current value decides the
+            // result nothing is evaluated AND nothing is assigned (the jump skips the store)
+            let mut short_circuit = None;
             match op {
                 AssignmentOp::AndAssign => {
-                    let skip = self.builder.emit_jump_if_false(dst);
+                    short_circuit = Some(self.builder.emit_jump_if_false(dst));
                     self.compile_expression(right, dst)?;
-                    self.builder.patch_jump(skip);
                 }
                 AssignmentOp::OrAssign => {
-                    let skip = self.builder.emit_jump_if_true(dst);
+                    short_circuit = Some(self.builder.emit_jump_if_true(dst));
                     self.compile_expression(right, dst)?;
-                    self.builder.patch_jump(skip);
                 }
                 AssignmentOp::NullishAssign => {
                     let not_nullish = self.builder.emit(Op::JumpIfNotNullish {
                         cond: dst,
                         target: 0,
                     });
-                    self.compile_expression(right, dst)?;
-                    self.builder.patch_jump(super::JumpPlaceholder {
+                    short_circuit = Some(super::JumpPlaceholder {
                         instruction_index: not_nullish,
                     });
+                    self.compile_expression(right, dst)?;
                 }
                 _ => {
                     // Regular compound assignment
@@ -843,6 +843,10 @@ impl Compiler {
                     name: name_idx,
                     src: dst,
                 });
+            }
+
+            if let Some(jump) = short_circuit {
+                self.builder.patch_jump(jump);
             }
         }
 
@@ -877,27 +881,27 @@ impl Compiler {
             // Compound assignment - load current value first
             self.emit_get_property(dst, obj_reg, &key_info)?;
 
-            // Handle short-circuit operators
+            // Handle short-circuit operators: when the current value decides the result nothing
+            // is evaluated AND nothing is assigned (the jump skips the store)
+            let mut short_circuit = None;
             match op {
                 AssignmentOp::AndAssign => {
-                    let skip = self.builder.emit_jump_if_false(dst);
+                    short_circuit = Some(self.builder.emit_jump_if_false(dst));
                     self.compile_expression(right, dst)?;
-                    self.builder.patch_jump(skip);
                 }
                 AssignmentOp::OrAssign => {
-                    let skip = self.builder.emit_jump_if_true(dst);
+                    short_circuit = Some(self.builder.emit_jump_if_true(dst));
                     self.compile_expression(right, dst)?;
-                    self.builder.patch_jump(skip);
                 }
                 AssignmentOp::NullishAssign => {
                     let not_nullish = self.builder.emit(Op::JumpIfNotNullish {
                         cond: dst,
                         target: 0,
                     });
-                    self.compile_expression(right, dst)?;
-                    self.builder.patch_jump(super::JumpPlaceholder {
+                    short_circuit = Some(super::JumpPlaceholder {
                         instruction_index: not_nullish,
                     });
+                    self.compile_expression(right, dst)?;
                 }
                 _ => {
                     let right_reg = self.builder.alloc_register()?;
@@ -911,6 +915,10 @@ impl Compiler {
             }
 
             self.emit_set_property(obj_reg, &key_info, dst)?;
+
+            if let Some(jump) = short_circuit {
+                self.builder.patch_jump(jump);
+            }
         }
 
         // Free key register if computed
